@@ -72,11 +72,6 @@ def MatchFieldWF : V → Prop
       ((hm = 0 ∧ mask = .nil) ∨ (hm = 1 ∧ PayloadWF mask ∧ RecvOK mask r))
   | _ => False
 
-theorem n16_toNat (c : Nat) (h : c < 65536) : (n16 c).toNat = c := by
-  simp [n16, UInt16.toNat_ofNat', Nat.mod_eq_of_lt h]
-theorem n8_toNat (c : Nat) (h : c < 256) : (n8 c).toNat = c := by
-  simp [n8, UInt8.toNat_ofNat', Nat.mod_eq_of_lt h]
-
 /-- encoding of a well-formed field without mask -/
 theorem matchField_encode_nomask (c f ln : Nat) (val mask : V) (hwf : PayloadWF val) (vb : Bytes) (v2 : V)
     (hvb : MatchPayload.marshalM val = .ok (vb, v2)) :
